@@ -32,6 +32,10 @@ LEVEL_TEXT.update({
 LEVEL_TEXT.update({
     'C04': 'Bounded checks (Kani) of the translation kernel on the real code: each ASCII literal is emitted as itself in both regex positions, collating symbols/equivalence classes stand for their characters, ? * and unclosed [; plus an unbounded Verus proof of make_range. Not a decision of the language equality, which is delegated to the regex engine.',
 })
+LEVEL_TEXT.update({
+    'C07': 'Complete per-character proofs (Kani, loop-free over every char) that the quoting decision and the lexer classify characters consistently; the rest of C07 (positional rules, the quoted form, state listings) is not decided.',
+    'C16': 'Unbounded deductive proof (Verus) of the read-only clause for one variable (assign refuses and changes nothing; readonly mark is monotone; export touches only its flag). Scoping and lifetime of VariableSet are outside both verifiers\' reach and are not claimed.',
+})
 NOTE = {
     'C03': 'Trusted: Verus/Z3, vstd specs of checked arithmetic, assumed specs of checked_shl/shr/neg, Option::filter, str::parse (uninterpreted), Display for Value, the Env implementor contract. Not covered: eval()/parser structure, tokenizer, non-decimal variable values (F3).',
     'C12': 'Trusted: Verus/Z3, Kani/CBMC, assumed contracts for slab::Slab and (in Kani) a linear-scan stand-in for std HashMap; selectors assumed in Verus and bounded-checked in Kani (<= 3 slots quick); pid-reuse precondition from the property quantifier.',
@@ -45,6 +49,10 @@ NOTE.update({
 })
 NOTE.update({
     'C04': 'Bounded (ASCII, one-character symbols). Trusted: Kani/CBMC, Verus/Z3, regex-syntax grammar facts. Not covered: bracket parser with quoted characters (F2), non-ASCII, regex engine, trim_value, case.',
+})
+NOTE.update({
+    'C07': 'Kernel only. Trusted: Kani/CBMC, std char::is_whitespace. Not covered: str_needs_quoting beyond one character, Display for Quoted, lexer re-reading, printers of state listings.',
+    'C16': 'One clause only (read-only enforcement on assignment). Trusted: Verus/Z3; Location placeholder; assumed specs of mem::replace and Option::replace. Not covered: VariableSet scoping/lifetime, unset, environment export list.',
 })
 TECH = {
     'C03': 'contract-based deductive verification (Verus, Z3) of mechanically extracted real functions + loop-free Kani harnesses (complete) for binary_result',
@@ -65,6 +73,12 @@ TECH.update({
 
 TECH.update({
     'C04': 'Kani harness-encoded contracts on the real crate (bounded) + Verus contract on make_range',
+})
+
+
+TECH.update({
+    'C07': 'loop-free Kani harnesses over every char (complete) on the real crates',
+    'C16': 'contract-based deductive verification (Verus, Z3) of VariableRefMut operations',
 })
 
 
